@@ -81,6 +81,7 @@ type recTable struct {
 	Unresolved []string
 	Funcs      []string
 	Elems      []string // array-element rows (variable offset), rendered
+	ElemLen    []string // encode side, element records: the size one element is made with (constant or a field expression)
 }
 
 // dedupe removes duplicate rows (sibling functions such as TSi/TSr contribute the same rows).
